@@ -214,11 +214,45 @@ def guarded(res, fn, *args, limit=30, **kw):
     """run one generated case; (True, value), or (False, None) when the real code needed more than `limit` seconds
     (the case is counted as skipped in the evidence: running time is not a property under test)"""
     try:
-        with time_limit(limit):
+        with time_limit(limit), debug_logging(log_turn()):
             return True, fn(*args, **kw)
     except CaseTimeout:
         res.bump(f'skipped: the real code ran for more than {limit} s on this case')
         return False, None
+
+# ---------------------------------------------------------------- log level of the code under test
+# No answer of the toolbox may depend on the log level (a generator consumed by a debug message, a dump written only
+# when debugging ...): every fourth history / generation runs with the 'maltoolbox' loggers at DEBUG, the records
+# formatted and dropped.  LOG_MODE: 'mixed' (checks), 'off' / 'debug' (replays try both).
+import logging
+LOG_MODE = os.environ.get('VERIF_LOG', 'mixed')
+_log_turns = [0]
+class _Sink(logging.Handler):
+    def emit(self, record):
+        try: self.format(record)
+        except Exception: pass
+def log_turn() -> bool:
+    if LOG_MODE != 'mixed': return LOG_MODE == 'debug'
+    _log_turns[0] += 1
+    return _log_turns[0] % 4 == 0
+@contextlib.contextmanager
+def debug_logging(on: bool):
+    if not on:
+        yield; return
+    lg = logging.getLogger('maltoolbox')
+    saved = (lg.level, lg.handlers[:], lg.propagate)
+    lg.handlers[:] = [_Sink()]; lg.propagate = False; lg.setLevel(logging.DEBUG)
+    try:
+        yield
+    finally:
+        lg.handlers[:] = saved[1]; lg.propagate = saved[2]; lg.setLevel(saved[0])
+def logged(fn):
+    """method decorator: the call runs at the log level the object drew when it was made (`self.debug`)"""
+    import functools
+    @functools.wraps(fn)
+    def wrapper(self, *a, **kw):
+        with debug_logging(getattr(self, 'debug', False)): return fn(self, *a, **kw)
+    return wrapper
 
 # the case (language / model / history) the harness is working on right now: reported if the real code crashes on it
 CURRENT: dict = {}
